@@ -924,6 +924,12 @@ def mon_C10(ops, results):
                 want = min(exps) if exps else 0
                 if int(rf["next"]) != want:
                     out.append(viol("C10.pending-expirations-rearmed", i, "after the reopen the next scheduled expiry is %s; the smallest stored expiry is %d" % (rf["next"], want)))
+        if name == "expstate" and since_restart is not None and not modified and res.startswith("r=ok") and touched and all(k in last for k in touched):
+            exps = [int(d.get("row.exp", "0")) for d in last.values() if not absent(d) and int(d.get("row.exp", "0")) > 0]
+            want = min(exps) if exps else 0
+            nxt = int(res_fields(res).get("next", "0"))
+            if nxt != want:
+                out.append(viol("C10.pending-expirations-rearmed", i, "after the reopen the next scheduled expiry is %d; the smallest stored expiry is %d" % (nxt, want)))
         if name == "rb" and since_restart is not None and res.startswith("row=") and len(pos) >= 2:
             key = (pos[0], pos[1])
             before = since_restart[1].get(key)
@@ -1163,6 +1169,7 @@ def mon_C15(ops, results):
     deliver the final version of every document mutated through the regular API."""
     out = []
     delivered = {}          # feed id -> set of (key, cas)
+    delivered_ev = {}       # (feed id, key, cas) -> the last event delivered with that CAS
     maxcas = {}             # feed id -> highest CAS delivered
     prefix = {}
     for i, name, pos, args, res, last, feeds in Trace(ops, results).steps():
@@ -1173,6 +1180,7 @@ def mon_C15(ops, results):
                 if t.startswith("ev:{"):
                     e = ev_fields(t)
                     delivered.setdefault(pos[0], set()).add((e.get("k"), int(e.get("cas", "0"))))
+                    delivered_ev[(pos[0], e.get("k"), int(e.get("cas", "0")))] = e
                     maxcas[pos[0]] = max(maxcas.get(pos[0], 0), int(e.get("cas", "0")))
         if name == "rb" and len(pos) >= 2 and res.startswith("row=1"):
             for fid, (pfx, coll) in prefix.items():
@@ -1197,6 +1205,11 @@ def mon_C15(ops, results):
                 continue
             if (k, int(d.get("row.cas", "0"))) not in delivered.get(fid, set()):
                 out.append(viol("C15.no-mutation-skipped", len(ops) - 1, "the final version of %s/%s (cas %s) was delivered by no run of feed %s" % (c, k, d.get("row.cas"), fid)))
+            else:
+                e = delivered_ev.get((fid, k, int(d.get("row.cas", "0"))))
+                if e is not None and (e.get("op") == "del") != (not has_body(d)):
+                    out.append(viol("C15.no-mutation-skipped", len(ops) - 1, "the final version of %s/%s (cas %s) is %s but what feed %s delivered with that CAS was a %s" % (
+                        c, k, d.get("row.cas"), "a live document" if has_body(d) else "a deletion", fid, "deletion" if e.get("op") == "del" else "mutation")))
     return out
 
 
